@@ -6,7 +6,7 @@ from .. import common as C
 from .. import ubxgen as G
 from ..common import Case
 
-CHECKER = 'coqc props/C20.v (proofs/GpsdP.v) + correspondence _parse_gpsd_msg over real bytes vs extracted model + selection oracle'
+CHECKER = 'coqc props/C20.v props/C20b.v (proofs/GpsdP.v, proofs/GpsdLoopP.v) + correspondence _parse_gpsd_msg over real bytes vs extracted model + selection oracle'
 
 
 def jtok(v):
@@ -81,11 +81,15 @@ def check(tier, seed):
     res.rule = ('sequences of received chunks built from JSON objects (VERSION, DEVICES with 0..5 devices, other classes), arrays, scalars, '
                 'strings (incl. "class" and arrays containing it), NMEA text, truncated JSON, binary UBX chunks, several lines per chunk, CR/LF '
                 'variants x requested device present / absent / not given / empty string; real bytes through the real _parse_gpsd_msg over a stub '
-                'socket; compared: selected device, ready flag, release with the model; oracle: selection rule evaluated directly; non-trivial = '
+                'socket; setup() handshakes end to end compared with the model of the handshake loop (selection, readiness, chunks left unread, command header); '
+                'one command sent afterwards; compared: selected device, ready flag, release with the model; oracle: selection rule evaluated directly; non-trivial = '
                 'sequence containing a DEVICES object')
     with C.WorkDir('C20') as wd:
         C.audit_sources()
         C.props_obligations(res, 'C20', wd)
+        a0_ = list(res.assumption_lines)
+        C.props_obligations(res, 'C20b', wd)
+        res.assumption_lines = a0_ + res.assumption_lines
         rng = C.rng_for(seed, 'C20')
         cases = []
         for _ in range(400 if tier == 'quick' else 15000):
@@ -151,7 +155,7 @@ def check(tier, seed):
                 req_tok = '-'      # '' is falsy: same as not given (the model's requested())
             cases.append(Case('gpsd-handshake', f'gpsd {req_tok} ' + ' '.join(chunks_t), impl, desc,
                               nontrivial=bool(dev_msgs), kind='+'.join(sorted(kinds))[:50]))
-        n_setup = BK.gpsd_setup_cases(res, 'C20', rng, 40 if tier == 'quick' else 1500, PATHS)
+        n_setup = BK.gpsd_setup_cases(res, 'C20', rng, 40 if tier == 'quick' else 1500, PATHS, jtok, cases)
         res.notes['setup_runs'] = n_setup
         res.compare(cases)
         res.oblige('correspondence _parse_gpsd_msg (Tie A)', not res.disagreements)
